@@ -35,3 +35,4 @@ func verifNote(label string, v any)                { panic("verif intrinsic") }
 
 // verifInnerMsg: an Any wrapping an arbitrary (stub) message, as ExecuteMessages receives them
 func verifInnerMsg(name string) *codectypes.Any { panic("verif intrinsic") }
+func verifSymQty64(name string) int64               { panic("verif intrinsic") }
